@@ -348,3 +348,102 @@ Proof.
 Qed.
 
 End WithFloat.
+
+(** ** More fuel never changes a result *)
+
+Section Mono.
+Context {F : Type}.
+Variable pf : list N -> option F.
+
+Lemma parse_ident_list_mono f : forall st acc r,
+  @parse_ident_list F f st acc = Some r -> @parse_ident_list F (S f) st acc = Some r.
+Proof.
+  induction f as [|f IH]; intros st acc r H; [discriminate|].
+  cbn [parse_ident_list] in *. destruct (p_expect TIdent st) as [ok st1].
+  destruct (negb ok); [exact H|]. destruct (see_op [[46%N]] st1); [|exact H]. now apply IH.
+Qed.
+
+Lemma pv_body_mono (poe poe' : pstate -> list (okey * value) -> option (list (okey * value) * pstate))
+      (ple ple' : pstate -> list value -> option (list value * pstate))
+      (pil pil' : pstate -> list (list N) -> option (@value F * pstate)) :
+  (forall s a r, poe s a = Some r -> poe' s a = Some r) ->
+  (forall s a r, ple s a = Some r -> ple' s a = Some r) ->
+  (forall s a r, pil s a = Some r -> pil' s a = Some r) ->
+  forall st r, pv_body pf poe ple pil st = Some r -> pv_body pf poe' ple' pil' st = Some r.
+Proof.
+  intros H1 H2 H3 st r H. unfold pv_body in *.
+  destruct (pty (cur st)); try exact H.
+  - now apply H3.
+  - destruct (_ || _); [exact H|].
+    destruct (lit_is (cur st) [123%N]).
+    { destruct (poe (p_next st) []) as [[es st2]|] eqn:E; [|discriminate].
+      now rewrite (H1 _ _ _ E). }
+    destruct (lit_is (cur st) [91%N]); [|exact H].
+    destruct (ple (p_next st) []) as [[es st2]|] eqn:E; [|discriminate].
+    now rewrite (H2 _ _ _ E).
+Qed.
+
+Lemma poe_body_mono (pv pv' : pstate -> option (@value F * pstate))
+      (poe poe' : pstate -> list (okey * value) -> option (list (okey * value) * pstate)) :
+  (forall s r, pv s = Some r -> pv' s = Some r) ->
+  (forall s a r, poe s a = Some r -> poe' s a = Some r) ->
+  forall st acc r, poe_body pv poe st acc = Some r -> poe_body pv' poe' st acc = Some r.
+Proof.
+  intros H1 H2 st acc r H. unfold poe_body in *.
+  destruct (see_op [[125%N]] st); [exact H|]. destruct (negb _); [exact H|].
+  destruct (if ttype_eqb (pty (cur st)) TString then _ else _) as [key st2].
+  destruct (pv (snd (expect_op [58%N] st2))) as [[v st4]|] eqn:E; [|discriminate].
+  rewrite (H1 _ _ E). destruct (jail _); [exact H|]. now apply H2.
+Qed.
+
+Lemma ple_body_mono (pv pv' : pstate -> option (@value F * pstate))
+      (ple ple' : pstate -> list value -> option (list value * pstate)) :
+  (forall s r, pv s = Some r -> pv' s = Some r) ->
+  (forall s a r, ple s a = Some r -> ple' s a = Some r) ->
+  forall st acc r, ple_body pv ple st acc = Some r -> ple_body pv' ple' st acc = Some r.
+Proof.
+  intros H1 H2 st acc r H. unfold ple_body in *.
+  destruct (see_op [[93%N]] st); [exact H|].
+  destruct (pv st) as [[v st1]|] eqn:E; [|discriminate].
+  rewrite (H1 _ _ E). destruct (jail _); [exact H|]. now apply H2.
+Qed.
+
+Lemma parse_all_mono f :
+  (forall st r, parse_value pf f st = Some r -> parse_value pf (S f) st = Some r) /\
+  (forall st acc r, parse_object_entries pf f st acc = Some r ->
+                    parse_object_entries pf (S f) st acc = Some r) /\
+  (forall st acc r, parse_list_entries pf f st acc = Some r ->
+                    parse_list_entries pf (S f) st acc = Some r).
+Proof.
+  induction f as [|f (IH1 & IH2 & IH3)]; [repeat split; intros; discriminate|].
+  split; [|split].
+  - intros st r H. rewrite parse_value_S in *.
+    eapply pv_body_mono; [exact IH2|exact IH3|apply parse_ident_list_mono|exact H].
+  - intros st acc r H. rewrite parse_object_entries_S in *.
+    eapply poe_body_mono; [exact IH1|exact IH2|exact H].
+  - intros st acc r H. rewrite parse_list_entries_S in *.
+    eapply ple_body_mono; [exact IH1|exact IH3|exact H].
+Qed.
+
+Lemma parse_value_mono f f' st r :
+  f <= f' -> parse_value pf f st = Some r -> parse_value pf f' st = Some r.
+Proof.
+  induction 1 as [|f' Hle IH]; intros H; [exact H|].
+  apply (proj1 (parse_all_mono f')). now apply IH.
+Qed.
+
+Lemma parse_object_entries_mono f f' st acc r :
+  f <= f' -> parse_object_entries pf f st acc = Some r -> parse_object_entries pf f' st acc = Some r.
+Proof.
+  induction 1 as [|f' Hle IH]; intros H; [exact H|].
+  apply (proj1 (proj2 (parse_all_mono f'))). now apply IH.
+Qed.
+
+Lemma parse_list_entries_mono f f' st acc r :
+  f <= f' -> parse_list_entries pf f st acc = Some r -> parse_list_entries pf f' st acc = Some r.
+Proof.
+  induction 1 as [|f' Hle IH]; intros H; [exact H|].
+  apply (proj2 (proj2 (parse_all_mono f'))). now apply IH.
+Qed.
+
+End Mono.
